@@ -6,61 +6,3 @@ Open Scope Z_scope.
 Ltac Zify.zify_post_hook ::= Z.to_euclidean_division_equations.
 Ltac list_eq := repeat (apply f_equal2; [lia|]); try reflexivity.
 
-(* ---- witnesses against the code as it is in /repo (before the repairs) ---- *)
-
-Definition wconf (crc : Z) : PduConfig :=
-  {| cf_src := {| ubf_val := 1; ubf_len := 1 |}; cf_dst := {| ubf_val := 2; ubf_len := 1 |};
-     cf_seq := {| ubf_val := 3; ubf_len := 1 |};
-     cf_mode := 0; cf_large := 0; cf_crc := crc; cf_dir := 0; cf_segctrl := 0 |}.
-
-Ltac witness_valid :=
-  unfold fd_valid, conf_valid, ubf_valid, meta_valid, width_ok, flag, wf_bytes;
-  cbn [cf_src cf_dst cf_seq cf_mode cf_large cf_crc cf_dir cf_segctrl ubf_val ubf_len wconf
-       fp_data fp_offset fp_meta sm_state sm_data];
-  repeat split; try (repeat constructor; lia); try (vm_compute; intuition congruence).
-
-(* D-C07-1: a PDU with empty file data and no CRC is refused by the decoder of the same class *)
-Theorem fd_unpack_pack_empty_refuted :
-  exists c q, fd_valid c q /\ fd_pack (fd_pdu_of c q) = Ok (fd_layout c q) /\
-              fd_unpack (fd_layout c q) = Err EValue.
-Proof.
-  exists (wconf 0), {| fp_data := []; fp_offset := 0; fp_meta := None |}.
-  split; [witness_valid|]. split; vm_compute; reflexivity.
-Qed.
-
-(* D-C07-2: with the CRC flag the decoded file data contains the two CRC octets *)
-Theorem fd_unpack_crc_in_data_refuted :
-  exists c q p, fd_valid c q /\ fd_unpack (fd_layout c q) = Ok p /\
-                fp_data q = [7] /\ fp_data (fd_params p) = [7; 163; 239].
-Proof.
-  exists (wconf 1), {| fp_data := [7]; fp_offset := 0; fp_meta := None |}.
-  eexists. split; [witness_valid|]. split; [vm_compute; reflexivity|]. split; reflexivity.
-Qed.
-
-(* D-C07-2 (C09): octets after the PDU are folded into the file data *)
-Theorem fd_unpack_suffix_in_data_refuted :
-  exists c q p, fd_valid c q /\ fd_unpack (fd_layout c q ++ [65]) = Ok p /\
-                fp_data q = [7] /\ fp_data (fd_params p) = [7; 65].
-Proof.
-  exists (wconf 0), {| fp_data := [7]; fp_offset := 0; fp_meta := None |}.
-  eexists. split; [witness_valid|]. split; [vm_compute; reflexivity|]. split; reflexivity.
-Qed.
-
-(* D-C07-3: after decoding segment metadata the data-field length is that of a PDU without file data *)
-Theorem fd_unpack_meta_len_refuted :
-  exists c q p, fd_valid c q /\ fd_unpack (fd_layout c q) = Ok p /\
-                fd_dlen c q = 11 /\ h_dlen (fd_hdr p) = 6 /\
-                fd_pack p <> Ok (fd_layout c q).
-Proof.
-  exists (wconf 0),
-    {| fp_data := [1; 2; 3; 4; 5]; fp_offset := 0; fp_meta := Some {| sm_state := 1; sm_data := [9] |} |}.
-  eexists. split; [witness_valid|]. split; [vm_compute; reflexivity|].
-  split; [reflexivity|]. split; [reflexivity|]. vm_compute. discriminate.
-Qed.
-
-(* C10: metadata flag set and empty data field -> IndexError *)
-Theorem fd_unpack_total_refuted :
-  exists d, wf_bytes d /\ fd_unpack d = Err EIndex /\ documented EIndex = false.
-Proof.
-  exists [48; 0; 0; 8; 1; 3; 2]. split; [repeat constructor; lia|]. split; vm_compute; reflexivity.
-Qed.
